@@ -583,12 +583,20 @@ fn emit_body<'tcx>(tcx: TyCtxt<'tcx>, def: LocalDefId, body: &Body<'tcx>, out: &
                 StatementKind::Assign(b) => {
                     let (p, rv) = &**b;
                     let (_, line, exp) = span_info(tcx, st.source_info.span);
+                    // head of the assigned place's type, only for projected places (whole-value overwrites)
+                    let pty = p.ty(body, tcx).ty;
+                    let ph = if p.projection.is_empty() || !matches!(pty.kind(), ty::Adt(..)) {
+                        String::new()
+                    } else {
+                        format!(",\"ph\":{}", esc(&ty_head(tcx, pty)))
+                    };
                     Some(format!(
-                        "{{\"s\":\"assign\",\"p\":{},\"r\":{},\"line\":{},\"exp\":{}}}",
+                        "{{\"s\":\"assign\",\"p\":{},\"r\":{},\"line\":{},\"exp\":{}{}}}",
                         cx.place(p),
                         cx.rvalue(rv),
                         line,
-                        exp
+                        exp,
+                        ph
                     ))
                 }
                 StatementKind::SetDiscriminant { place, variant_index } => Some(format!(
